@@ -59,6 +59,7 @@ THEOREMS = [
     "OllamaVerif.C09.layerRun_good_last_2xx",
     "OllamaVerif.C09.exchange_ok_last_2xx",
     "OllamaVerif.C09.F18_legacy_non_2xx_counts_as_accepted",
+    "OllamaVerif.C09.legacy_sequential_each_push_manifest_last",
     "OllamaVerif.C09.sharedTransfer_ok_settled",
     "OllamaVerif.C09.shared_joined_success_only_if_transfer_ok",
     "OllamaVerif.C09.shared_owner_success_only_if_transfer_ok",
@@ -157,7 +158,7 @@ def run(ctx):
         path = ctx.replay_line_file()
         env["VERIF_REPLAY"] = path
         head = open(path).read()
-        replay_kind = "shared" if "kind=shared" in head else "legacy" if "kind=legacy" in head else ("handler" if "kind=handler" in head else "client")
+        replay_kind = "seq" if "kind=seq" in head else "shared" if "kind=shared" in head else "legacy" if "kind=legacy" in head else ("handler" if "kind=handler" in head else "client")
     if replay_kind in (None, "client"):
         rc, out, outdir = ctx.go_test("./server/internal/client/ollama/", OVERLAY, "^TestVerifC09$", env=env)
         if rc != 0:
@@ -204,6 +205,17 @@ def run(ctx):
             ctx.violation("driver-failed", "", out[-1500:], no_input=True)
         ctx.read_stats(outdir)
         ctx.l1(outdir, label="shared")
+        l1_inputs(ctx, outdir)
+        ctx.classify(ctx.l2(outdir))
+    if replay_kind in (None, "seq"):
+        # sequential pushes in one process (models sharing layers, per-repository registry state)
+        env5 = dict(env)
+        env5["VERIF_NSEQ"] = ctx.scale(400, 5000)
+        rc, out, outdir = ctx.go_test("./server/", OVERLAY_LEGACY, "^TestVerifC09LegacySeq$", env=env5, timeout=1800)
+        if rc != 0:
+            ctx.violation("driver-failed", "", out[-1500:], no_input=True)
+        ctx.read_stats(outdir)
+        ctx.l1(outdir, label="seq")
         l1_inputs(ctx, outdir)
         ctx.classify(ctx.l2(outdir))
     if replay_kind in (None, "handler"):
